@@ -1,4 +1,5 @@
 import FoxModel.Driver.Ops
+import FoxModel.Driver.Serve
 /-
   foxmodel — line-protocol driver: one case per input line (tab separated, first field = stream name),
   one output line per case. Core Lean only (links without Mathlib).
@@ -9,12 +10,14 @@ def dispatch (line : String) : String :=
   let fields := line.splitOn "\t"
   match fields.head? with
   | some "ops" => Driver.Ops.handle fields
+  | some "serve" => Driver.Serve.handle fields
+  | some "hist" => Driver.Ops.handle (fields.take 2)
   | _ => "M=unknown-stream"
 
 partial def loop (h : IO.FS.Stream) (out : IO.FS.Stream) : IO Unit := do
   let line ← h.getLine
   if line.isEmpty then return ()
-  let l := (line.dropRightWhile (fun c => c == '\n' || c == '\r'))
+  let l := ((line.dropEndWhile (fun c => c == '\n' || c == '\r')).toString)
   if l.startsWith "#" then
     out.putStrLn "#"
   else
